@@ -193,14 +193,60 @@ def run(ctx: Ctx):
                  "connection ready or closing it")
     hi = [n for n in g.nodes if n.kind == "stmt" and any(A.dotted(t) == f"{conn}.host_identity" for t in n.stores())]
     ctx.inst("receive_cea:host-identity")
-    if not hi or not all(g.dominated(x, hi) for x in flags) or \
-            not ast.unparse(hi[0].ast.value).startswith(f"{msg}.origin_host.decode()"):
+    def _is_decoded_origin(e):
+        # <msg>.origin_host.decode(<whatever error mode>), possibly case-folded
+        x = e
+        while isinstance(x, ast.Call) and isinstance(x.func, ast.Attribute) \
+                and x.func.attr in ("decode", "lower", "casefold", "strip"):
+            x = x.func.value
+        return A.dotted(x) == f"{msg}.origin_host" and "decode" in ast.unparse(e)
+    if not hi or not all(g.dominated(x, hi) for x in flags) or not _is_decoded_origin(hi[0].ast.value):
         ctx.fail("receive_cea:host-identity", f.loc(), "the peer's identity (Origin-Host of the CEA) "
                  "is not recorded before the connection becomes ready")
+
+    # ---------------- R9 the exchange is decided, not abandoned --------------------------------------
+    # A CER / CEA that lacks an AVP or carries bytes that are not text must end in one of the
+    # specified outcomes.  An AttributeError (None where the AVP is absent), UnicodeDecodeError
+    # (strict decode of a received name), TypeError or KeyError raised by the handler is caught by
+    # the dispatcher's catch-all: the peer gets a 5012 without the node's capabilities - or
+    # nothing, for a CEA - and the connection stays CONNECTED until the time-out.
+    from ..effects import effects_of as _eff
+    E_ = _eff(model)
+    ctx.rule("C06-R9", "receive_cer / receive_cea raise nothing that depends on what the peer sent "
+                       "(absent AVPs, names that are not valid text)", floor=2)
+    for hn in ("receive_cer", "receive_cea"):
+        hf = nc.methods.get(hn)
+        cons = f"{hn}:decided-for-any-content"
+        ctx.inst(cons, rule="C06-R9")
+        if hf is None:
+            continue
+        ctx.use(hf)
+        bad = sorted(set(E_.raises(hf)) & {"AttributeError", "UnicodeDecodeError", "TypeError", "KeyError",
+                                          "IndexError"})
+        for e in bad:
+            chain = E_.why(hf, e)
+            ctx.fail(f"{hn}:{e}", chain[-1].split(": ")[0] if chain else hf.loc(),
+                     f"{hn} can raise {e} on what the peer sent ({chain[-1].split(': ', 1)[-1] if chain else ''}): "
+                     f"the capabilities exchange is abandoned half-way - no specified outcome, the "
+                     f"connection stays CONNECTED until the CER/CEA time-out", rule="C06-R9", steps=chain)
 
     # ---------------- R5 CER first, time-outs -----------------------------------------------------
     ctx.rule("C06-R5", "an outbound connection sends its CER on every edge that makes it CONNECTED; "
                        "CEA/CER time-outs close with FAILED_CONNECT_CE using the matching timeout", floor=4)
+    # ---------------- R5e the per-peer CER time-out ----------------------------------------------------
+    ctx.cur("C06-R5")
+    cons_ct = "_check_timers:cer-timeout#per-peer-before-cer"
+    ctx.inst(cons_ct, rule="C06-R5")
+    ct_ = nc.methods.get("_check_timers")
+    fp_ = nc.methods.get("_find_connection_peer")
+    if ct_ is not None and fp_ is not None and not any(
+            k in ast.unparse(ct_.node) + ast.unparse(fp_.node) for k in ("ip_addresses", ".ip ", ".ip)", "conn.ip")):
+        ctx.fail(cons_ct, ct_.loc(), "the peer whose cer_timeout applies is found through the name the connection "
+                 "took from its CER: while an accepted connection is still waiting for that CER no peer is "
+                 "found and the node-level cer_timeout is used - Peer.cer_timeout ('timeout waiting for a CER "
+                 "after receiving a connection attempt') never applies to the wait it is documented for "
+                 "(findings/audit3/C06-3, C11-3)", rule="C06-R5")
+
     CONNECTED = P("PEER_CONNECTED")
     for fn_name in ("_connect_to_peer", "_handle_connections"):
         fn = nc.methods.get(fn_name)
@@ -325,7 +371,8 @@ def run(ctx: Ctx):
     from . import c10
     ctx.include(c10.run, {"C10-R1", "C10-R2"}, "C06-R6c",
                 "requests are routed only to connections in a ready state (filter and selection "
-                "callback of route_request)", floor=4)
+                "callback of route_request)", floor=4,
+                constructs=lambda c: "realm" not in c)      # (which realm is served is C10's business)
 
 
 def _receive_cer(ctx: Ctx, model, nc, P, K):
